@@ -334,6 +334,8 @@ def check_C18(chk):
         cfg = f'SPECIFICATION Spec\nCONSTANTS\n  NFmc = {nf}\n  MaxW = 2\n' + ''.join(f'INVARIANT {i}\n' for i in
               ['TypeOK', 'Atomic', 'OnlyAfterSuccess', 'InOrder', 'Terminated', 'ModeWindow', 'Progress']) + 'CHECK_DEADLOCK FALSE\n'
         run_spec_only(chk, f'design-{nf}', 'JaqInPlace', cfg, workers=4)
+    # liveness: under weak fairness of the process's own steps every run ends (exit or kill)
+    run_spec_only(chk, 'liveness', 'JaqInPlace', 'SPECIFICATION FairSpec\nCONSTANTS\n  NFmc = 2\n  MaxW = 2\nPROPERTY Ends\nCHECK_DEADLOCK FALSE\n', workers=4)
     scs = inplace.scenarios(chk.tier)
     jobs = []
     capk = 14 if q else 200
@@ -442,6 +444,8 @@ def check_C17(chk):
     cfg = f'SPECIFICATION Spec\nCONSTANTS\n  MaxItems = {mi}\n  NFiles = 2\n' + ''.join(f'INVARIANT {i}\n' for i in
           ['ConsumedIsPrefix', 'OnlyConsumed', 'StatusOk', 'Terminates', 'EmitVec']) + 'CHECK_DEADLOCK FALSE\n'
     res = run_spec_only(chk, 'machine', 'JaqCli', cfg)
+    # liveness: under weak fairness every run reaches an exit status
+    run_spec_only(chk, 'liveness', 'JaqCli', 'SPECIFICATION FairSpec\nCONSTANTS\n  MaxItems = 1\n  NFiles = 2\nPROPERTY Ends\nCHECK_DEADLOCK FALSE\n', workers=8)
     vecs = [json.loads(l) for l in vlib.tagged_lines(res['out'], 'VEC')]
     extra = [dict(v, stdin=True) for v in vecs if cli.via_stdin(v)]
     wd = os.path.join(W, 'cli')
@@ -770,6 +774,8 @@ def check_C16(chk):
     jaq = vlib.build_jaq_hooked()
     invs = 'NoDuplicates OpenIsStack EnteredOnce CompletionOrder CycleIsError Terminates'
     suites = [('leak', 1), ('ext', 1), ('graph', 1 if q else 2), ('cyclic', 1), ('search', 1 if q else 2)]
+    # liveness: loading ends for every graph, cyclic ones included
+    run_spec_only(chk, 'liveness', 'MC_Modules', 'SPECIFICATION FairSpec\nCONSTANTS\n  Suite = "cyclic"\n  Size = 1\nPROPERTY LoadEnds\nCHECK_DEADLOCK FALSE\n', workers=8)
     base = os.path.join(W, 'modtree')
     shutil.rmtree(base, ignore_errors=True)
     total = {'cases': 0, 'probes': 0, 'outcomes': {}}
@@ -1087,8 +1093,12 @@ def check_C19(chk):
                 'each is run (a) alone in a fresh process, (b) one after the other in one process in two shuffled orders, (c) from T threads x R rounds in per-thread shuffled order, released by '
                 'a barrier, sharing the compiled filters; every recorded run <<thread, seq, job, outputs>> is validated by TLC (Trace_Conc) against the table of isolated runs. Same for the '
                 'thread-safe value representation with one input value shared by all threads. history: about 110 micro filters (one native each; one regular expression under twelve flag sets x five regex filters) run as all ordered pairs back to back on one thread and concurrently.')
-    res = vlib.run_tlc('MC_Conc', 'SPECIFICATION Spec\nCONSTANTS\n Threads = {1, 2, 3}\n Jobs = {"a", "b"}\n Eval <- MCEval\n MaxRuns = 2\nINVARIANTS RunsEqualIsolated SharedIsConstant\nCHECK_DEADLOCK FALSE\n',
+    res = vlib.run_tlc('MC_Conc', 'SPECIFICATION Spec\nCONSTANTS\n Threads = {1, 2, 3}\n Jobs = {"a", "b"}\n Eval <- MCEval\n MaxRuns = 2\n Cache = FALSE\nINVARIANTS RunsEqualIsolated SharedIsConstant\nCHECK_DEADLOCK FALSE\n',
                        'C19-design', workers=8)
+    ctl = vlib.run_tlc('MC_Conc', 'SPECIFICATION Spec\nCONSTANTS\n Threads = {1, 2, 3}\n Jobs = {"a", "b"}\n Eval <- MCEval\n MaxRuns = 2\n Cache = TRUE\nINVARIANTS RunsEqualIsolated\nCHECK_DEADLOCK FALSE\n',
+                       'C19-design-control', workers=8)
+    if 'RunsEqualIsolated' not in ctl['invariant_violated']:
+        raise ToolError('the control of JaqConc (a process-wide first-wins cache) does not violate RunsEqualIsolated: the invariant is vacuous')
     chk.add_tlc(res)
     for inv in res['invariant_violated']:
         chk.violation(f'spec:conc:{inv}', f'TLC: invariant {inv} of JaqConc violated (see {res["out"]})', {'tlc_out': res['out']})
@@ -1163,6 +1173,9 @@ def check_C19(chk):
         runs.append((name, outp))
     # trace validation: table first, then every recorded run
     def validate(name, table, lines):
+        # long logs are validated in chunks of 20 000 runs (each with the table in front)
+        if len(lines) > 20000:
+            return sum(validate(f'{name}.{k // 20000}', table, lines[k:k + 20000]) for k in range(0, len(lines), 20000))
         tr = os.path.join(W, f'trace-C19-{name}.ndjson')
         with open(tr, 'w') as f:
             f.write(json.dumps({'alone': table}) + '\n')
@@ -1177,7 +1190,7 @@ def check_C19(chk):
         for l in vlib.tagged_lines(res['out'], 'REJECTED'):
             rec = json.loads(l)
             r = rec['rec']
-            chk.violation(f"{name.rstrip('12')}:{r['job']}", f"{name}: `{texts.get(r['job'], r['job'])}` yields {json.dumps(r['out'])[:200]} (thread {r['t']}, run {r['seq']}); alone it yields {json.dumps(rec['alone'])[:200]}", rec)
+            chk.violation(f"{name.split('.')[0].rstrip('12')}:{r['job']}", f"{name}: `{texts.get(r['job'], r['job'])}` yields {json.dumps(r['out'])[:200]} (thread {r['t']}, run {r['seq']}); alone it yields {json.dumps(rec['alone'])[:200]}", rec)
             n += 1
         return n
     total = 0
@@ -1191,6 +1204,16 @@ def check_C19(chk):
         validate(name, malone, lines)
     chk.traces += total
     chk.evaluations += total + len(alone)
+    chk.nontrivial_rule = 'a job that compiles and yields at least one output or an error when run alone'
+    for tab in (alone, malone):
+        for j, o in tab.items():
+            if o and o != ['<does not compile>']:
+                chk.nontrivial.add(j)
+    for name, outp in (runs + mruns)[:4]:
+        for k, l in enumerate(open(outp)):
+            if k == 5:
+                r = json.loads(l)
+                chk.sample({'run': name, 'thread': r['t'], 'seq': r['seq'], 'filter': texts.get(r['job']), 'outputs': r['out'][:3]})
     chk.extra['jobs'] = len(jobs)
     chk.extra['recorded_runs'] = total
     chk.extra['threads_rounds'] = [T, R]
@@ -1413,6 +1436,14 @@ def check_C06(chk):
         chk.violation(key, f'{who}: {what}', r)
     chk.traces += len(cases)
     chk.evaluations += nev + len(cases)
+    chk.nontrivial_rule = 'a library case that compiled and ran to outputs or an error of its own under the tracer'
+    for l in open(op):
+        r = json.loads(l)
+        if r['end'] in ('ok', 'error') :
+            chk.nontrivial.add(r['id'])
+    for k, l in enumerate(open(tr)):
+        if k % 600 == 7:
+            chk.sample(json.loads(l))
     chk.extra.update({'library_cases': len(cases), 'filters_discovered': len(names), 'events_validated': nev, 'cli_scenarios': len(sc) + len(inplace), 'hung_or_died_cases': hangs[:20]})
     chk.assumptions += ['system calls are the complete interface to files, network and processes (strace -f; no io_uring: such a call would not be in the allowed set)',
                         'the classes of paths are computed by the driver from the command line; stat / access of a path is not counted as reading it',
@@ -1572,29 +1603,42 @@ def check_C05(chk):
     n_doc = len(cases) - n_native - n_text
     res = run_sys_cases(cases, 'C05', hang_s=4)
     by = {c['id']: c for c in cases}
-    tr = os.path.join(W, 'trace-C05.ndjson')
-    with open(tr, 'w') as f:
-        for r in res:
-            end = r['end']
-            end = 'halt' if end.startswith('{"c"') else 'does not compile' if end.startswith('does not compile') else end
-            f.write(json.dumps({'id': r['id'], 'end': end, 'panic': r.get('panic', ''), 'status': r.get('status', 0), 'stderr': r.get('stderr', '')}) + '\n')
-    tres = vlib.run_tlc('Trace_Total', 'SPECIFICATION Spec\nINVARIANTS Report\nCHECK_DEADLOCK FALSE\n', 'C05-trace', workers=1, timeout=7200, env_extra={'TRACE': tr}, xss='1g', heap='8g')
-    chk.add_tlc(tres)
-    summ = list(vlib.tagged_lines(tres['out'], 'RESULT'))
-    if not summ:
-        raise ToolError(f'Trace_Total did not consume the trace: {tres["out"]}')
-    for l in vlib.tagged_lines(tres['out'], 'REJECTED'):
-        r = json.loads(l)['rec']
-        c = by.get(r['id'], {})
-        vars_ = ' '.join(f"${n} = {json.dumps(v)[:80]}" for n, v in c.get('vars', []))
-        where = (r.get('panic') or r.get('stderr') or '')[:200]
-        # one finding per failing site: filter + panic message (argument values vary)
-        site = re.sub(r'\d+', 'N', where)[:120]
-        key = f"{r['id'].split('#')[0].split(':')[0] if r['id'].startswith(('yaml:', 'xml:', 'toml:', 'csv:', 'json:', 'cbor:', 'text:')) else r['id'].split('#')[0]}:{site}"
-        chk.violation(key, f"{r['end']}: `{c.get('text', '?')}` with {vars_}: {where}", {'case': c, 'result': r})
+    # the recorded ends are validated by TLC in chunks (one trace file per 100 000 records)
+    ends_total = {}
+    CH = 100000
+    for ci in range(0, len(res), CH):
+        tr = os.path.join(W, f'trace-C05-{ci // CH}.ndjson')
+        with open(tr, 'w') as f:
+            for r in res[ci:ci + CH]:
+                end = r['end']
+                end = 'halt' if end.startswith('{"c"') else 'does not compile' if end.startswith('does not compile') else end
+                f.write(json.dumps({'id': r['id'], 'end': end, 'panic': r.get('panic', ''), 'status': r.get('status', 0), 'stderr': r.get('stderr', '')}) + '\n')
+        tres = vlib.run_tlc('Trace_Total', 'SPECIFICATION Spec\nINVARIANTS Report\nCHECK_DEADLOCK FALSE\n', f'C05-trace-{ci // CH}', workers=1, timeout=7200, env_extra={'TRACE': tr}, xss='1g', heap='8g')
+        chk.add_tlc(tres)
+        summ = list(vlib.tagged_lines(tres['out'], 'RESULT'))
+        if not summ:
+            raise ToolError(f'Trace_Total did not consume the trace: {tres["out"]}')
+        for k, v in json.loads(summ[0])['counts'].items():
+            ends_total[k] = ends_total.get(k, 0) + v
+        for l in vlib.tagged_lines(tres['out'], 'REJECTED'):
+            r = json.loads(l)['rec']
+            c = by.get(r['id'], {})
+            vars_ = ' '.join(f"${n} = {json.dumps(v)[:80]}" for n, v in c.get('vars', []))
+            where = (r.get('panic') or r.get('stderr') or '')[:200]
+            # one finding per failing site: filter + panic message (argument values vary)
+            site = re.sub(r'\d+', 'N', where)[:120]
+            key = f"{r['id'].split('#')[0].split(':')[0] if r['id'].startswith(('yaml:', 'xml:', 'toml:', 'csv:', 'json:', 'cbor:', 'text:')) else r['id'].split('#')[0]}:{site}"
+            chk.violation(key, f"{r['end']}: `{c.get('text', '?')}` with {vars_}: {where}", {'case': c, 'result': r})
     chk.evaluations += len(cases)
     chk.traces += len(cases)
-    chk.extra.update({'filters_discovered': len(names), 'native_cases': n_native, 'filter_texts': n_text, 'documents': n_doc, 'ends': json.loads(summ[0])['counts']})
+    chk.nontrivial_rule = 'a case whose computation was started on the input and ended by itself (outputs, reported error, acceptance or rejection), i.e. not a hang, an exhaustion or a filter that does not compile'
+    for r in res:
+        if r['end'] not in ('hang', 'exhausted', 'died') and not str(r['end']).startswith('does not compile'):
+            chk.nontrivial.add(r['id'])
+    for k in range(0, len(res), max(1, len(res) // 6)):
+        c = by.get(res[k]['id'], {})
+        chk.sample({'filter': c.get('text'), 'vars': c.get('vars'), 'mode': c.get('mode', 'run'), 'end': res[k]['end']})
+    chk.extra.update({'filters_discovered': len(names), 'native_cases': n_native, 'filter_texts': n_text, 'documents': n_doc, 'ends': ends_total})
     chk.assumptions += ['byte-level mutation of filter texts and documents is not done: texts and documents are all short sequences over a token alphabet per language (grammar-aware enumeration by TLC)',
                         'exhaustion of stack or memory and non-termination are outside the claim (recorded as "exhausted" / "hang")',
                         'the panic!() arms that rely on invariants of third-party parsers are reached only as far as these inputs reach them']
